@@ -67,7 +67,7 @@ for _pid, _title, _what in [
   ("C01", "valid samples accepted", "every sample labelled valid is accepted by jsonschema Draft202012Validator; non-vacuity when a generated sample is accepted"),
   ("C02", "invalid samples rejected", "every sample labelled invalid is rejected by the validator"),
   ("C12", "constraints fenced on both sides", "every single-constraint relaxation (type, declared required property, numeric bound) changes the verdict of some sample"),
-  ("C06", "normalisation preserves acceptance", "extended validator (NOT_enum / NOT_multipleOf) agrees on the schema and on normalize(schema) over an instance grid (equality for full merge, implication for reduced merge)"),
+  ("C06", "normalisation preserves acceptance", "extended validator (NOT_enum / NOT_multipleOf) agrees on the schema and on normalize(schema) over an instance grid (equality for full merge, implication for reduced merge); Coq (keyword level, coq/JsonValid.v): every scalar inverter (bounds, lengths, item counts, enum, type) is satisfied exactly by the instances that violate the keyword, _merge is characterised key by key and is a conjunction on sets of bounds"),
   ("C07", "XML documents validate / do not validate", "xmlschema validates every document labelled valid and rejects every document labelled invalid (schemas without emptiable choice branches), numeric draws forced to both ends of their range; the Coq model of xml_schema/parse.py is not written yet, so this check is currently oracle-only"),
   ("C10", "OpenAPI request labels", "every request of generate_all is taken apart (applied parameter / body leaves), each carried raw value judged by jsonschema against its parameter / body schema, required parts checked, method and placeholder-free path checked, and compared with the label; the request graph is an instance of the C03 theorem (its well-formedness is checked by the model's wfb on the dumped node table)"),
   ("C13", "history independence", "random histories of parse / normalize / generate_paths / execute calls followed by a probe, compared with the probe run first in a fresh interpreter (same hash seed and random seed); inputs deep-compared before / after; repeated execute compared; Coq (core): C13_history_free -- generate_paths yields the same entries, labels and outcome whatever distance annotations earlier calls left on the graph (agree-on-table congruence through all five traversals), C13_refuted_pinned keeps the defect of the pinned code"),
